@@ -263,6 +263,71 @@ func runC06(c *Ctx) {
 	if c.IsWorker() {
 		return
 	}
+	// Path.Unmarshal into typed destinations: the selected parts (nulls among them) go through a cast layer
+	{
+		type named int
+		type rec struct {
+			A int
+			B *string
+			c int
+		}
+		docs := []string{`[null]`, `{"a":null}`, `{"a":[null,1,"x",{"a":null}],"b":{"a":2}}`, `[1,2,3]`, `{"a":{"A":1,"B":null,"c":3}}`, `{"a":"s"}`, `{"a":[[null]]}`, `null`, `[[],{}]`, `{"a":1.5e300}`}
+		dsts := []func() interface{}{
+			func() interface{} { return new(int) }, func() interface{} { return new(*int) }, func() interface{} { return new([]int) },
+			func() interface{} { return new([]string) }, func() interface{} { return new(map[string]int) }, func() interface{} { return new(rec) },
+			func() interface{} { return new(named) }, func() interface{} { return new([]named) }, func() interface{} { return new([2]int) },
+			func() interface{} { return new(**string) }, func() interface{} { return new(interface{}) }, func() interface{} { return new([]*rec) },
+			func() interface{} { return new(map[named]*int) }, func() interface{} { return new(bool) }, func() interface{} { return new(float32) },
+			func() interface{} { return new(uint8) }, func() interface{} { return new(string) },
+		}
+		for _, ps := range []string{"$", "$.a", "$[0]", "$[*]", "$..a", "$.a[*]", "$.a[0]", "$.a.B"} {
+			pp, err := json.CreatePath(ps)
+			if err != nil {
+				continue
+			}
+			for _, d := range docs {
+				for _, mk := range dsts {
+					dst := mk()
+					_, pan := safeDo(func() error { return pp.Unmarshal([]byte(d), dst) })
+					c.Oracle("returns/Path.Unmarshal-typed", fmt.Sprintf("%s on %s into %T", ps, d, dst), "panic "+pan, "returns", pan == "", "")
+				}
+			}
+		}
+		// Path.Get with indexes outside the value
+		for _, ps := range []string{"$[-1]", "$[5]", "$.a[-1]", "$[0][-2]", "$..a[-1]", "$[99999999]"} {
+			pp, err := json.CreatePath(ps)
+			if err != nil {
+				continue
+			}
+			for _, v := range []interface{}{[]interface{}{1, 2}, []int{1}, [2]string{"a", "b"}, map[string]interface{}{"a": []interface{}{1}}, []interface{}{[]interface{}{1}}, &[]int{}, nil, "s"} {
+				vv := v
+				_, pan := safeDo(func() error { var dst interface{}; return pp.Get(vv, &dst) })
+				c.Oracle("returns/Path.Get-index", fmt.Sprintf("%s on %T", ps, vv), "panic "+pan, "returns", pan == "", "")
+				_, pan = safeDo(func() error { var dst int; return pp.Get(vv, &dst) })
+				c.Oracle("returns/Path.Get-index", fmt.Sprintf("%s on %T into int", ps, vv), "panic "+pan, "returns", pan == "", "")
+			}
+		}
+	}
+	// many ill-formed bytes in one window of the stream (each is replaced by three bytes in place)
+	for _, n := range []int{100, 400, 509, 510, 511, 700, 1023, 1400, 3000} {
+		for _, fill := range []string{"\xff", "a\xff", "\xc3", "\xe2\x82"} {
+			doc := []byte("\"" + strings.Repeat(fill, n/len(fill)+1) + "\"")
+			for _, mk := range []func() interface{}{func() interface{} { return new(string) }, func() interface{} { return new(interface{}) }, func() interface{} { return new([]string) }, func() interface{} { return new(map[string]int) }} {
+				dst := mk()
+				in := doc
+				switch dst.(type) {
+				case *[]string:
+					in = append(append([]byte("["), doc...), ']')
+				case *map[string]int:
+					in = append(append([]byte("{"), doc...), []byte(":1}")...)
+				}
+				_, pan := safeDo(func() error { return json.NewDecoder(bytes.NewReader(in)).Decode(dst) })
+				c.Oracle("returns/Decoder-many-replacements", fmt.Sprintf("%d x %q into %T", n, fill, dst), "panic "+pan, "returns", pan == "", "")
+				_, pan = safeDo(func() error { return json.NewDecoder(&chunkReader{data: in, size: 7}).Decode(mk()) })
+				c.Oracle("returns/Decoder-many-replacements", fmt.Sprintf("%d x %q into %T (7-byte reads)", n, fill, dst), "panic "+pan, "returns", pan == "", "")
+			}
+		}
+	}
 	// Path.Get on Go values (reflection walk)
 	vals := []interface{}{map[string]interface{}{"a": map[string]interface{}{"b": 1.0}}, []interface{}{1.0, "x"}, struct{ A int }{1}, &struct{ A []int }{[]int{1}}, 5, "s", nil, map[string]int{"a": 1}}
 	for _, p := range c06Paths {
